@@ -65,7 +65,8 @@ class Inconclusive(Exception):
 def build_lock():
     os.makedirs(BUILD, exist_ok=True)
     f = open(os.path.join(BUILD, ".lock"), "w")
-    fcntl.flock(f, fcntl.LOCK_EX)
+    if not os.environ.get("VERIF_NO_BUILD_LOCK"):
+        fcntl.flock(f, fcntl.LOCK_EX)
     return f
 
 
